@@ -59,7 +59,7 @@ CFG = {
     "assumptions": ["finite coordinates; membership in P is the even-odd rule over all rings of all member polygons; the oracle is proved sound (its intervals lie on L with midpoints inside P) but not complete"],
     "rule": "simple open integer-grid polylines (random walks, zigzags with many crossings, walks entirely inside, entirely outside within the box, box-disjoint, straight through) and multi-line strings of 1-4 pairwise disjoint members "
             "against polygons with holes / multi-polygons / boxes at half-integer offsets (no line vertex on the boundary, no polygon vertex on the line: rejected by exact int64 tests); "
-            "distinct = distinct input line; non-trivial = verdict class not '-outside-quantifier' (degenerate corpus receivers, compared with the model only)",
+            "40% of the cases at coordinate scales 2^-20/2^-24/2^-30/2^+20 (dyadic: exact), multi-call histories on one line with operands overwritten in place, operands over one flat backing array and compared with a snapshot after each call, size-threshold cases (vertex/ring/member counts beyond 64/128/1024; lines of 1024..3000 vertices); distinct = distinct input line; non-trivial = verdict class not '-outside-quantifier' (degenerate corpus receivers, compared with the model only)",
     "trivial_class": r"outside-quantifier$",
     "pregen": pin_polyclip,
     "timeout": {"quick": 600, "thorough": 3000},
